@@ -82,7 +82,7 @@ def delay_obligation(name, n, ops, K, kind):
         vals, S, cs = delay_system(n, ops, K)
         V = vals.V
         s = z3.Solver()
-        s.set("timeout", 900000)
+        s.set("timeout", 300000)
         s.add(*cs)
         final = S.st[K]
         no_throw = z3.And(*[z3.Not(vals.app0_throws(z3.IntVal(c))) for c in range(0, 16)])
@@ -136,7 +136,7 @@ def promise_obligation(name, progs, K, kind):
         vals, S, cs, args_of = promise_system(progs, K)
         V = vals.V
         s = z3.Solver()
-        s.set("timeout", 900000)
+        s.set("timeout", 300000)
         s.add(*cs)
         final = S.st[K]
         delivers = [(t, j) for t, p in enumerate(progs) for j, op in enumerate(p) if op == "deliver"]
